@@ -5,7 +5,7 @@ from typing import List, Optional, Tuple
 
 from ..engine import analyse_env, get_tree
 from ..loader import AnalysisError, short
-from ..normal import ext_name, is_negation, negand, strip_cast
+from ..normal import disjuncts, ext_name, is_negation, negand, strip_cast
 from ..report import Result
 from ..terms import T, children, contains, deps, mk
 from .common import analyses, env_site, last_conditions, leaves, step_types, timestep_kind, txt
@@ -130,6 +130,35 @@ def check(tier: str) -> Result:
             if how:
                 found = (c, V, how)
                 break
+        if found is None:
+            # not(V) with V = a & b appears in the flattened predicate as the two disjuncts not a, not b (De Morgan)
+            from ..normal import neg as _neg
+            cset = {strip_cast(c) for c in conds}
+            for G in guards:
+                parts = [strip_cast(d) for d in disjuncts(_neg(G))]
+                if len(parts) > 1 and all(p_ in cset for p_ in parts):
+                    found = (parts[0], G, "guard of the state update (its negation is spread over several disjuncts)")
+                    break
+            if found is None:
+                acts = [c for c in conds if contains(c, ea.action)]
+                for k_ in range(len(acts), 1, -1):
+                    import itertools as _it
+                    for sub in _it.combinations(acts, k_):
+                        Vs = _neg(sub[0])
+                        for x_ in sub[1:]:
+                            Vs = mk("bin", "&", Vs, _neg(x_))
+                        if Vs in guards:
+                            found = (sub[0], Vs, "guard of the state update")
+                            break
+                        for m in masks:
+                            ok, _ = compare(m, Vs, ea.action)
+                            if ok:
+                                found = (sub[0], Vs, "equals the displayed mask at the action (its negation is spread over several disjuncts)")
+                                break
+                        if found:
+                            break
+                    if found:
+                        break
         if found is None and cand_seen == 0:
             res.add("C05.R1", site, fn, "an invalid action terminates the episode (LAST predicate has a disjunct not V)", False,
                     f"no termination condition depends on the action; conditions: {[txt(c, 3, 70) for c in conds]}")
